@@ -307,3 +307,9 @@ def avctp_garbage_then_single(x0: int, x1: int, x2: int, x3: int, n: int) -> boo
 
 
 _flags.int_format_placeholder = True     # log f-strings with symbolic ints are not the subject here (see vf/flags.py)
+
+
+def e2_obligations(tier):
+    """wide-range verification conditions over the AST of the real source (vf/e2.py, vf/e2k.py)"""
+    from vf import e2k
+    return [e2k.sdp_next_payload(), e2k.avdtp_send_iteration()]
